@@ -304,6 +304,19 @@ pub fn c16(stream: &[(Ev, Vec<Act>)], fired: &Fired, pending_bypass_block: &[boo
                         return (Some(Viol { sig: "C16:leak-during-blocking".into(), msg: format!("a {} packet left at {now}ns while blocking is active until {until}ns, without bypass", if e.pad { "padding" } else { "normal" }), at: i }), st);
                     }
                     if !allow {
+                        // the simulator changes the blocking state when an action fires, the BlockingBegin is reported
+                        // at the same instant but possibly after this packet: a bypassable update fired at this instant
+                        let pending_update = stream[i + 1..].iter().take_while(|(x, _)| x.t == now).enumerate().any(|(k, (x, _))| {
+                            matches!(x.event, TriggerEvent::BlockingBegin { .. }) && fired[i + 1 + k].as_ref().map(|p| p.bypass && (p.replace || now + p.dur > until)).unwrap_or(false)
+                        });
+                        // same-instant rule: a *replacing* bypassable block fired at this instant starts the blocking anew
+                        let pending_replace = stream[i + 1..].iter().take_while(|(x, _)| x.t == now).enumerate().any(|(k, (x, _))| {
+                            matches!(x.event, TriggerEvent::BlockingBegin { .. }) && fired[i + 1 + k].as_ref().map(|p| p.bypass && p.replace).unwrap_or(false)
+                        });
+                        if pending_replace {
+                            continue;
+                        }
+                        let latest_allow = latest_allow || pending_update;
                         return (Some(Viol { sig: format!("C16:bypass-through-non-bypassable-blocking{}", if latest_allow { "+latest-update-allows-bypass" } else if pending_bypass_block.get(i).copied().unwrap_or(false) { "+pending-bypassable-block-applied-early" } else { "" }), msg: format!("a bypass {} packet left at {now}ns while blocking is active until {until}ns, but not every action that started or updated this blocking allowed bypass", if e.pad { "padding" } else { "normal (replacing padding)" }), at: i }), st);
                     }
                 }
